@@ -192,7 +192,7 @@ impl Types {
                 match n {
                     Some(n) => {
                         ensure!(
-                            *n == bytes.len() as u32,
+                            *n as usize == bytes.len(),
                             "expected byte array of length {n} but got {}",
                             bytes.len()
                         );
